@@ -68,10 +68,14 @@ CLAIMED = {
         "(+ exactly the two identification fields), parser termination. BOUNDED on the real code: parse_data_block against the IEC 62056-21 grammar, identification capture groups, float clause sweep. Hence 'other'.",
    note="Known finding (open): the float clause is false above ~10^14 (binary64). Bounded: 1500/40000 generated blocks, all three-decimal values below 300/10000 plus random values.", technique=DED + " (string theory) for the decode mapping; bounded grammar-based conformance for the parser and the float clause", design="DESIGN.md section 9 C11"),
  "C12": dict(level="proof",
-   text="Deductive: per-call contract of decode_message_payload and decode_message from the real source, decoder table read from the source, decoders abstract (outcome = function of the payload): None exactly when every decoder rejects, "
+   text="Deductive: (1) per-call contract of decode_message_payload and decode_message from the real source, decoder table read from the source, decoders abstract (outcome = function of the payload): None exactly when every decoder rejects, "
         "otherwise the first accepting decoder in cyclic order from the remembered one (hence the remembered one whenever it accepts), previous_success_decoder names it and is unchanged when nobody accepts, decode_message agrees with "
-        "decode_message_payload(message.payload); class invariant => every history. The clause 'a genuine message is decoded by its own meter's decoder' needs rejection lemmas through the construct grammars and is NOT decided (stated).",
-   note="Assumed: each decoder's outcome on a payload is one of {dict, ConstructError, ValueError}; message.payload side-effect free.", technique=DED + "; loop unrolled over the concrete table, class invariant enumerated", design="DESIGN.md section 9 C12"),
+        "decode_message_payload(message.payload); class invariant => every history. (2) Genuine messages: for every documented Aidon / Kaifa / Kamstrup list (frame and bare body, values symbolic) each binary decoder that a fresh AutoDecoder tries "
+        "before the list's own decoder is executed symbolically through the grammar layer and ends in ConstructError / ValueError on every path (103 list x decoder pairs); the 'P1' entry returns only for text without control octets (proved on "
+        "decode_p1_readout_content) and every list starts with the array / structure tag. With the decoders' own contracts (C07-C09) a fresh AutoDecoder, and one remembering the same meter and form, returns the own decoder's dictionary.",
+   note="Assumed: each decoder's outcome on a payload is one of {dict, ConstructError, ValueError}; message.payload side-effect free; construct parse rules as in C07-C09. Not examined symbolically: genuine P1 text against the three frame decoders "
+        "(covered on the real code by C11's bounded AutoDecoder-agreement run). Bounded cross-check: genuine lists with boundary-biased and text-like register octets on a fresh AutoDecoder. Found and repaired with this check: /repo 60b6d02.",
+   technique=DED + "; loop unrolled over the concrete table, class invariant enumerated; rejection lemmas by symbolic execution of the other decoders' grammars", design="DESIGN.md section 9 C12 and 14.9"),
  "C13": dict(level="proof",
    text="Deductive: per-call contract of data_received over abstract readers/messages with a ghost queue (selection of the first candidate, in list order, that returns a valid message; all messages of the selecting call forwarded; "
         "later candidates not fed; selected reader fed exactly once per call afterwards), message_received of both protocols against their forwarding predicate; message lists of any length by loop invariants. "
